@@ -234,6 +234,22 @@ pub fn run_worker(body: &str, ctx: &mut Ctx) -> String {
             hdr += 1;
         }
     }
+    // Cases with real pools (`A1` / `A2`) use FIXED loopback addresses (127.1.x.y:9042) for what listens - or does not
+    // listen - at a node's address, so two hx processes (the runner's parallel chunks, a concurrent check) must not run
+    // such cases at the same time: one would connect to the other's listeners. Cross-process mutex = a listener on a
+    // port no case uses, held for the duration of the case.
+    let _real_pool_guard = if filter != 0 {
+        let t0 = std::time::Instant::now();
+        loop {
+            match std::net::TcpListener::bind(SocketAddr::from(([127, 1, 255, 254], 9040))) {
+                Ok(l) => break Some(l),
+                Err(_) if t0.elapsed() < std::time::Duration::from_secs(300) => std::thread::sleep(std::time::Duration::from_millis(3)),
+                Err(_) => break None,
+            }
+        }
+    } else {
+        None
+    };
     let rt = tokio::runtime::Builder::new_current_thread().enable_all().build().unwrap();
     rt.block_on(async {
         let mut rig = WorkerRig::spawn_peers(&initial, with_subscriber, filter).await;
